@@ -839,7 +839,8 @@ N_SHAPES = (
 N_SHAPE = {label: (family, binding) for label, family, binding in N_SHAPES}
 N_PLACES = ("only", "before", "after")          # the file does not mention the real setting / does so after / before the name
 N_DELIVERIES = ("cli-c", "env-c", "discover", "fileprefix", "python")
-N_CTX = ("none", "framework", "none", "env", "framework", "cli")       # rotation of "who else mentions the setting"
+N_CTX = ("none", "framework", "none", "env", "framework", "cli", "none")      # rotation of "who else mentions the setting"
+#                                                 (seven entries: in step with neither the places, the deliveries nor the edits)
 N_OPS = ("name-added", "name-removed", "name-rebound")
 N_END = "#end"                                  # the generated file records that its last line ran, and with which name bound
 
@@ -886,7 +887,7 @@ def enumerate_names(meta, tier, seed, P):
             if tier == "quick":
                 pls = places if label in ("upper-case-constant", "capitalised-constant") else (places[n % len(places)],)
                 for pl in pls:
-                    cells.append({"kind": "N", "s": name, "shape": label, "place": pl, "ctx": ctx_at(n // 3),
+                    cells.append({"kind": "N", "s": name, "shape": label, "place": pl, "ctx": ctx_at(n),
                                   "delivery": N_DELIVERIES[n % 5], "off": off})
                     n += 1
             else:
@@ -897,8 +898,8 @@ def enumerate_names(meta, tier, seed, P):
                         n += 1
         for op in N_OPS:
             for label in ([shapes[n % len(shapes)]] if tier == "quick" else shapes) if shapes else []:
-                for pl in ((places[(n // 2) % len(places)],) if tier == "quick" else places):
-                    cells.append({"kind": "NR", "s": name, "shape": label, "place": pl, "op": op, "ctx": ctx_at(n // 3),
+                for pl in ((places[n % len(places)],) if tier == "quick" else places):
+                    cells.append({"kind": "NR", "s": name, "shape": label, "place": pl, "op": op, "ctx": ctx_at(n),
                                   "delivery": R_DELIVERIES[n % 4], "off": off})
                     n += 1
         n += 1                                  # the rotation must not fall into step with the cells per setting
